@@ -39,7 +39,7 @@ def run(ctx):
         if not p.startswith(FS) or '{closure' in p:
             continue
         sig = P.sigs.get(p)
-        seqp = [i for i in range(1, f.argc + 1) if f.lname(i) == 'seq' and f.lty(i) == 'u64']
+        seqp = [i for i in range(1, f.argc + 1) if f.lname(i) == 'seq' and f.lty(i) == 'u64'] or ([i for i in range(2, f.argc + 1) if f.lty(i) == 'u64'] if re.search(r'seq', p.rsplit('::', 1)[-1]) else [])
         if not seqp or sig is None or not sig['output'].startswith('core::option::Option<'):
             continue
         ctx.touch(f)
